@@ -91,7 +91,8 @@ def check(world, tier):
             # unit test parses_error_without_message)
             if not ctx_has(e, "packet::parse_error") and not e.body.endswith("packet::parse_error"):
                 fallible.append((e, "missing-NUL"))
-        elif n == "core::str::<impl str>::parse":
+        elif n == "core::str::<impl str>::parse" and not e.inlined:
+            # (an inlined parse is the lookup of a crate-local FromStr type - the option NAME, whose failure means "skip")
             fallible.append((e, "non-numeric-option-value"))
     b.need(len([1 for e, k in fallible if k == "missing-NUL"]), 5, "NUL searches in request/OACK decoding")
     b.need(len([1 for e, k in fallible if k == "non-numeric-option-value"]), 2, "option value parses")
